@@ -10,6 +10,7 @@ package cache
 import (
 	"context"
 	"errors"
+	"fmt"
 	"strconv"
 	"time"
 
@@ -79,12 +80,14 @@ func c06Unmarshal(data []byte, v any) error {
 
 // the retry cleaner's package-level timing wheel (1 s ticker) is irrelevant here: AddCleanTask is
 // intercepted below, so the wheel is never used and need not tick
+//
 //verif:stub github.com/zeromicro/go-zero/core/collection.NewTimingWheel c06NewTimingWheel
 func c06NewTimingWheel(interval time.Duration, numSlots int, execute collection.Execute) (*collection.TimingWheel, error) {
 	return &collection.TimingWheel{}, nil
 }
 
 // hit/miss statistics are irrelevant (and their atomics would only multiply schedules)
+//
 //verif:stub (*github.com/zeromicro/go-zero/core/stores/cache.Stat).IncrementTotal c06StatNop
 //verif:stub (*github.com/zeromicro/go-zero/core/stores/cache.Stat).IncrementHit c06StatNop
 //verif:stub (*github.com/zeromicro/go-zero/core/stores/cache.Stat).IncrementMiss c06StatNop
@@ -110,21 +113,32 @@ var (
 const c06Key = "cache:user:1"
 
 type c06World struct {
-	node      Cache
-	expiry    time.Duration
-	nfExpiry  time.Duration
-	rowThere  bool
-	rowVer    int64
-	dbFails   bool
-	queries   int
-	inFlight  int
-	maxFlight int
+	node                   Cache
+	expiry                 time.Duration // effective expiry (after defaults)
+	nfExpiry               time.Duration
+	cfgExpiry, cfgNfExpiry time.Duration // as configured (may be <= 0)
+	wrapNotFound           bool          // the query wraps the not-found error (fmt.Errorf("...: %w", errNotFound))
+	rowThere               bool
+	rowVer                 int64
+	dbFails                bool
+	queries                int
+	inFlight               int
+	maxFlight              int
 }
 
 func c06NewWorld() *c06World {
 	w := &c06World{}
-	w.expiry = []time.Duration{time.Second, 10 * time.Second, 7 * 24 * time.Hour}[rt.Choose("expiry", 3)]
-	w.nfExpiry = []time.Duration{time.Second, time.Minute}[rt.Choose("notFoundExpiry", 2)]
+	// configured values; zero or negative ones fall back to the documented defaults (7 d / 1 min)
+	cfg := [][2]time.Duration{{time.Second, time.Second}, {10 * time.Second, time.Minute}, {7 * 24 * time.Hour, time.Second}, {-time.Minute, time.Minute}, {10 * time.Second, -time.Minute}}[rt.Choose("expiries", 5)]
+	w.cfgExpiry, w.cfgNfExpiry = cfg[0], cfg[1]
+	w.expiry, w.nfExpiry = w.cfgExpiry, w.cfgNfExpiry
+	if w.expiry <= 0 {
+		w.expiry = 7 * 24 * time.Hour
+	}
+	if w.nfExpiry <= 0 {
+		w.nfExpiry = time.Minute
+	}
+
 	w.rowVer = 1
 	if rt.Tier() > 0 {
 		w.rowVer = int64(rt.Choose("rowVersion", 2)) + 1
@@ -133,8 +147,14 @@ func c06NewWorld() *c06World {
 }
 
 func (w *c06World) build() *c06World {
-	w.node = NewNode(&redis.Redis{}, syncx.NewSingleFlight(), &Stat{}, c06ErrNotFound, WithExpiry(w.expiry), WithNotFoundExpiry(w.nfExpiry))
+	if w.cfgExpiry == 0 {
+		w.cfgExpiry, w.cfgNfExpiry = w.expiry, w.nfExpiry
+	}
+	w.node = NewNode(&redis.Redis{}, syncx.NewSingleFlight(), &Stat{}, c06ErrNotFound, WithExpiry(w.cfgExpiry), WithNotFoundExpiry(w.cfgNfExpiry))
 	w.rowThere = rt.Bool("rowPresent")
+	if !w.rowThere {
+		w.wrapNotFound = rt.Bool("queryWrapsNotFound")
+	}
 	return w
 }
 
@@ -153,6 +173,9 @@ func (w *c06World) query(v any) error {
 		return c06ErrDb
 	}
 	if !w.rowThere {
+		if w.wrapNotFound {
+			return fmt.Errorf("find row: %w", c06ErrNotFound)
+		}
 		return c06ErrNotFound
 	}
 	v.(*c06Row).Ver = w.rowVer
@@ -177,7 +200,7 @@ const (
 )
 
 //verif:entry tier=quick,thorough steps=600000 recycle=1 cover=hit,placeholder,missfound,missnotfound,dberror,cachedown,garbage,expired,writedown
-//verif:doc One cached read (TakeCtx or TakeWithExpireCtx) from an arbitrary coherent (cache, database) state: cache entry absent / not-found placeholder / value / garbage with a symbolic remaining TTL and symbolic clock advance, row present or absent, expiry in {1 s, 10 s, 7 d}, not-found expiry in {1 s, 1 min}, database failure and one store failure at a symbolic call index; jitter random draw symbolic (E2 floats).
+//verif:doc One cached read (TakeCtx or TakeWithExpireCtx) from an arbitrary coherent (cache, database) state: cache entry absent / not-found placeholder / value / garbage with a symbolic remaining TTL and symbolic clock advance, row present or absent, (expiry, not-found expiry) in {(1 s,1 s), (10 s,1 min), (7 d,1 s), (-1 min => default 7 d, 1 min), (10 s, -1 min => default 1 min)}, the database's not-found error plain or wrapped, database failure and one store failure at a symbolic call index; jitter random draw symbolic (E2 floats).
 func Verif_C06_Take() {
 	w := c06NewWorld()
 	kind := rt.Choose("cacheEntry", 4)
